@@ -70,7 +70,8 @@ Inductive non_runtime_change (s : step_in) : Prop :=
 | nr_back_added : forall p, In p (si_backs s) -> bp_old p = None -> non_runtime_change s
 | nr_host_added : forall p, In p (si_hosts s) -> hp_old p = None -> non_runtime_change s
 | nr_back_field : forall p old name, In p (si_backs s) -> bp_old p = Some old ->
-    differs_at backend_fields (b_cfg old) (b_cfg (bp_cur p)) name ->
+    differs_at backend_fields (b_cfg old) (bp_early p) name ->            (* when Shrink compares *)
+    differs_at backend_fields (b_cfg old) (b_cfg (bp_cur p)) name ->     (* when the updater compares *)
     ~ In name (pair_blank ++ shrink_blank) -> non_runtime_change s
 | nr_host_field : forall p old name, In p (si_hosts s) -> hp_old p = Some old ->
     differs_at host_fields (h_cfg old) (h_cfg (hp_cur p)) name ->
@@ -93,7 +94,7 @@ Theorem non_runtime_change_reloads : forall s, non_runtime_change s -> so_reload
 Proof.
   intros s H. rewrite step_reload. apply negb_true_iff.
   destruct (si_committed s) eqn:Hc; [|reflexivity]. cbn [andb].
-  destruct H as [H|H|H|H|p Hin Ho|p Hin Ho|p old name Hin Ho Hd Hn|p old name Hin Ho Hd Hn].
+  destruct H as [H|H|H|H|p Hin Ho|p Hin Ho|p old name Hin Ho Hde Hd Hn|p old name Hin Ho Hd Hn].
   - congruence.
   - rewrite H. reflexivity.
   - rewrite H. cbn. rewrite andb_false_r. reflexivity.
@@ -107,13 +108,13 @@ Proof.
   - rewrite (forallb_false_in br_updated _ (backend_step true p)); [rewrite !andb_false_r; reflexivity| |].
     + apply in_map. exact Hin.
     + unfold backend_step. rewrite Ho.
-      destruct (shrink_keeps_old (bp_cur p) old) eqn:Sh.
-      * exfalso. unfold shrink_keeps_old, backends_match in Sh.
+      destruct (shrink_keeps_old (shrink_view p) old) eqn:Sh.
+      * exfalso. unfold shrink_keeps_old, backends_match, shrink_view in Sh. cbn [b_cfg b_eps] in Sh.
         apply andb_true_iff in Sh. destruct Sh as [_ Sh]. apply andb_true_iff in Sh. destruct Sh as [Sh _].
         apply andb_true_iff in Sh. destruct Sh as [Sh _].
         apply Hn. apply in_or_app. right.
         eapply cfg_eq_except_differs; [exact Sh|].
-        destruct Hd as [i [x [y [H1 [H2 [H3 H4]]]]]]. exists i, y, x. auto.
+        destruct Hde as [i [x [y [H1 [H2 [H3 H4]]]]]]. exists i, y, x. auto.
       * cbn [br_updated]. eapply backend_change_reloads; eauto.
         intros Hb. apply Hn. apply in_or_app. left. exact Hb.
   - rewrite (forallb_false_in hr_updated _ (host_step true p)); [rewrite !andb_false_r; reflexivity| |].
@@ -131,7 +132,7 @@ Example non_runtime_example :
   let cfg1 := map (fun n => if n =? "BalanceAlgorithm" then 1%N else 0%N) backend_fields in
   let old := mkB "b" cfg0 true 0 1 false "" 1 [e] in
   let cur := mkB "b" cfg1 true 0 1 false "" 1 [e] in
-  let s := mkSI true false false false [] [mkBP (Some old) cur (fun _ => AText "")] [] in
+  let s := mkSI true false false false [] [mkBP (Some old) cur cfg1 (fun _ => AText "")] [] in
   differs_at backend_fields (b_cfg old) (b_cfg cur) "BalanceAlgorithm" /\ so_reload (step s) = true.
 Proof.
   split; [|reflexivity]. exists 16%nat, 0%N, 1%N. repeat split; try reflexivity. discriminate.
@@ -149,7 +150,7 @@ Proof.
   rewrite (forallb_false_in br_updated _ (backend_step (si_committed s) p)); [rewrite !andb_false_r; reflexivity| |].
   - apply in_map. exact Hin.
   - unfold backend_step in *. destruct (bp_old p) as [old|]; [|reflexivity].
-    destruct (shrink_keeps_old (bp_cur p) old); [cbn in Hi; lia|].
+    destruct (shrink_keeps_old (shrink_view p) old); [cbn in Hi; lia|].
     destruct (si_committed s); [|reflexivity].
     cbn [br_cmds br_updated] in *. eapply dyn_fault_reloads; eauto.
 Qed.
@@ -269,7 +270,7 @@ Theorem noop_backend_step : forall p old,
   let r := backend_step true p in br_updated r = true /\ br_cmds r = [].
 Proof.
   intros p old Ho Hc Hd Hr D1 D2 He Hn. cbv zeta. unfold backend_step. rewrite Ho.
-  destruct (shrink_keeps_old (bp_cur p) old); [split; reflexivity|].
+  destruct (shrink_keeps_old (shrink_view p) old); [split; reflexivity|].
   cbn [br_updated br_cmds].
   destruct (noop_no_reload old (bp_cur p) (bp_resp p) Hc Hd Hr D1 D2 He Hn) as [H1 [H2 _]]. auto.
 Qed.
